@@ -457,6 +457,10 @@ def shapes(tier, seed):
         [("CRY", (0,), (2,), "a"), ("X", (3,), None, None), ("CRY", (0,), (2,), "-a")],
         [("CNOT", (1,), (0,), None), ("H", (0,), None, None), ("CNOT", (1,), (0,), None), ("RX", (1,), None, "a")],   # blocked on the control only
         [("CPHASE", (1,), (0,), "a"), ("RZ", (0,), None, "b"), ("CPHASE", (1,), (0,), "-a")],                         # commuting gate in between
+        [("CRZ", (1,), (0,), "a"), ("H", (0,), None, None), ("CRZ", (1,), (0,), "b")],             # controlled rotations, gate on the CONTROL in between
+        [("CRX", (2,), (0, 1), "a"), ("X", (1,), None, None), ("CRX", (2,), (0, 1), "b")],          # ... on one of two controls
+        [("CRY", (1,), (0,), "a"), ("H", (1,), None, None), ("CRY", (1,), (0,), "b")],             # ... on the target
+        [("CPHASE", (0,), (2,), "a"), ("CNOT", (1,), (2,), None), ("CPHASE", (0,), (2,), "b")],      # control shared with another entangling gate
     ]
     ops = [("merge_rotations", "function"), ("merge_rotations", "method"), ("remove_redundant_gates", "function"),
            ("remove_redundant_gates", "method"), ("simplify", "function"), ("simplify", "method")]
